@@ -5,7 +5,7 @@ import asyncio
 import copy
 import itertools
 from typing import Any, Dict, List, Optional, Tuple
-from urllib.parse import urlsplit
+from urllib.parse import unquote, urlsplit
 
 from ..core.framework import Ctx, b2s, s2b
 
@@ -13,12 +13,15 @@ SPEC = {
     "modules": ["HC.Props.C20"],
     "technique": "Lean 4 theorems over an executable model of the three middlewares (prefix non-interference, first-match routing, fan-out invariant by induction over reports, redirect URL law) + differential execution of model and real classes",
     "level_text": "Proved in Lean for all inputs: trusted value / client / scheme / host are independent of anything a client prepends (earlier header lines or inline) once the trusted proxies appended >= hops values; zero hops, too few values and non-www scopes leave the scope untouched; dispatcher picks the first matching mount, strips the prefix, never hands on an empty path, 404 iff no prefix matches; lifespan fan-out forwards each completion at most once and only when every mount reported (induction over arbitrary report sequences); cleartext http/ws scopes redirect to https/wss with the same host, path and query, secure scopes pass through. The model is tied to the code by running both on the same generated inputs on every run (thousands of header sets, all completion orders for <=3 mounts on both dispatcher variants), and the property monitors (pairwise prefix independence, snapshot non-mutation, redirect target parse) are evaluated on the real classes.",
-    "level_note": "Trusted: Lean kernel; the hand-written model HC/Pure/Middleware.lean (tied by differential testing only); extracted comparator `len(values) >= trusted_hops`; urlunsplit modelled for netloc-bearing schemes; deepcopy non-mutation sampled by snapshots, not proved; fan-out theorem assumes each mount reports a completion at most once.",
-    "extracted": ["Guards"],
+    "level_note": "Trusted: Lean kernel; the hand-written model HC/Pure/Middleware.lean (tied by differential testing only); extracted comparator `len(values) >= trusted_hops` and extracted choice of the scope key the redirect path is read from (raw_path); urlunsplit modelled for netloc-bearing schemes; deepcopy non-mutation sampled by snapshots, not proved; fan-out theorem assumes each mount reports a completion at most once.",
+    "extracted": ["Guards", "RedirectSites"],
     "rule": "direct calls of ProxyFixMiddleware / DispatcherMiddleware (asyncio+trio) / HTTPToHTTPSRedirectMiddleware with a recording "
             "inner app, each compared with the Lean model (hcdriver) and judged by the monitors; distinct = distinct "
             "(family, mode/hops/enough-class/prefix-kind | mount-count/match-index | scope-kind/version/host-source/ext) classes; "
-            "non-trivial = a forwarding header / a matching mount / a cleartext scope is present",
+            "non-trivial = a forwarding header / a matching mount / a cleartext scope is present. Redirect scopes are built the way the "
+            "protocol layer builds them (raw_path = the target's path as sent, path = its percent-decoded form): a deterministic "
+            "corpus of targets with escaped space / ? / # / / / % / CR LF / UTF-8 / malformed escapes x scope kinds x root paths x "
+            "queries runs first on every tier, random targets follow",
     "trusted": ["urllib.parse.urlunsplit is modelled for netloc-bearing schemes (HC.Middleware.urlunsplit)",
                 "copy.deepcopy semantics (non-mutation is checked by snapshot comparison, not proved)"],
     "partial": ["lifespan_fanout assumes each mount reports each completion at most once (a duplicate report after completion is forwarded again by the code)",
@@ -446,25 +449,86 @@ def check_fanout(ctx: Ctx, cases: List[dict]) -> None:
 # --------------------------------------------------------------------------------------------------------------
 HOSTS = ["example.com", "a.example:8080", "h\xe9.test", "[::1]:80", "x"]
 RPATHS = ["/", "/a/b", "/p%20q", "", "a", "//evil", "/x;y", "*"]
+# request targets whose percent-decoded form differs from what was sent (scope["path"] != scope["raw_path"].decode()):
+# escaped space, `?` (would start a query), `#` (a fragment), `/`, `%`, CR LF, UTF-8, dot segments, malformed / lower-case escapes
+ESCAPED = ["/a%20b", "/files/report%3F2024.pdf", "/tag/c%23", "/a%2Fb", "/100%25", "/x%0d%0aSet-Cookie:%20a=b", "/caf%C3%A9",
+           "/%e4%b8%ad/%E6%96%87", "/%2e%2e/etc", "/%zz", "/trailing%", "/%41bc", "/a%2520b", "/%3f%23", "/a%00b", "%2Fno-slash"]
 QUERIES = ["", "a=1", "a=1&b=%20", "?"]
 ROOTS = ["", "/root", "/r/"]
+HEX = "0123456789ABCDEFabcdef"
+
+
+def _decoded_path(raw_path: str) -> str:
+    """scope["path"] as hypercorn's protocol layer derives it from the target (http_stream.py / ws_stream.py)"""
+    return unquote(raw_path)
+
+
+def _random_target(rng) -> str:
+    out = []
+    for _ in range(rng.randint(1, 4)):
+        seg = ""
+        for _ in range(rng.randint(0, 4)):
+            r = rng.random()
+            if r < 0.45:
+                seg += rng.choice("abcXYZ019-._~;=+,")
+            elif r < 0.9:
+                seg += "%" + rng.choice(HEX) + rng.choice(HEX)
+            else:
+                seg += rng.choice(["%", "%2", "%G1", "%%"])
+        out.append(seg)
+    return "/" + "/".join(out)
+
+
+def _redirect_case(kind: str, secure: bool, http_version: str, ws_ext: bool, cfg_host, hdr_host, second_host: bool, root_path: str,
+                   raw_path: str, query: str, path: Optional[str] = None) -> dict:
+    scheme = {"http": "https" if secure else "http", "websocket": "wss" if secure else "ws", "lifespan": ""}[kind]
+    return {"family": "redirect", "kind": kind, "scheme": scheme, "http_version": http_version, "ws_ext": ws_ext, "cfg_host": cfg_host,
+            "hdr_host": hdr_host, "second_host": second_host, "root_path": root_path, "raw_path": raw_path,
+            "path": _decoded_path(raw_path) if path is None else path, "query": query}
+
+
+def redirect_corpus() -> List[dict]:
+    """deterministic: every escaped target x {http, websocket+extension on 1.1 and 2} x root path x query, host from the header or
+    the constructor; plus secure scopes with the same targets (must pass through untouched)"""
+    cases = []
+    for i, raw in enumerate(ESCAPED):
+        for j, (kind, ver, ext) in enumerate((("http", "1.1", False), ("websocket", "1.1", True), ("websocket", "2", True))):
+            root = ROOTS[(i + j) % len(ROOTS)]
+            query = QUERIES[(i + 2 * j) % len(QUERIES)]
+            cfg = None if (i + j) % 2 == 0 else HOSTS[i % len(HOSTS)]
+            cases.append(_redirect_case(kind, False, ver, ext, cfg, HOSTS[(i + j) % len(HOSTS)], False, root, raw, query))
+        cases.append(_redirect_case("http", True, "1.1", False, None, "example.com", False, "", raw, ""))
+    # a path rewritten by an outer middleware (DispatcherMiddleware strips the mount prefix from `path`, not from `raw_path`)
+    cases.append(_redirect_case("http", False, "1.1", False, None, "example.com", False, "", "/mount/a%20b", "x=1", path="/a b"))
+    return cases
 
 
 def gen_redirect(ctx: Ctx, n: int) -> List[dict]:
     rng = ctx.rng
-    cases = []
+    cases = redirect_corpus()
     for _ in range(n):
         kind = rng.choice(["http", "http", "websocket", "websocket", "lifespan"])
         secure = rng.random() < 0.25
-        scheme = {"http": "https" if secure else "http", "websocket": "wss" if secure else "ws", "lifespan": ""}[kind]
         cfg_host = rng.choice([None, None, rng.choice(HOSTS)])
         hdr_host = rng.choice([None, rng.choice(HOSTS), rng.choice(HOSTS)])
         if cfg_host is None and hdr_host is None and rng.random() < 0.8:
             hdr_host = rng.choice(HOSTS)
-        cases.append({"family": "redirect", "kind": kind, "scheme": scheme, "http_version": rng.choice(["1.1", "1.1", "2", "1.0"]),
-                      "ws_ext": rng.random() < 0.75, "cfg_host": cfg_host, "hdr_host": hdr_host, "second_host": rng.random() < 0.2,
-                      "root_path": rng.choice(ROOTS), "raw_path": rng.choice(RPATHS), "query": rng.choice(QUERIES)})
+        r = rng.random()
+        raw = rng.choice(RPATHS) if r < 0.4 else (rng.choice(ESCAPED) if r < 0.6 else _random_target(rng))
+        cases.append(_redirect_case(kind, secure, rng.choice(["1.1", "1.1", "2", "1.0"]), rng.random() < 0.75, cfg_host, hdr_host,
+                                    rng.random() < 0.2, rng.choice(ROOTS), raw, rng.choice(QUERIES)))
     return cases
+
+
+def _target_class(c: dict) -> str:
+    raw, dec = c["raw_path"], c.get("path", c["raw_path"])
+    if dec == raw:
+        return "plain"
+    cls = [name for name, ch in (("query-sep", "?"), ("fragment", "#"), ("slash", "/"), ("percent", "%"), ("space", " "), ("crlf", "\n"))
+           if dec.count(ch) > raw.count(ch)]
+    if any(ord(ch) > 127 for ch in dec):
+        cls.append("non-ascii")
+    return "escaped:" + ("+".join(cls) if cls else "other")
 
 
 def check_redirect(ctx: Ctx, cases: List[dict]) -> None:
@@ -483,7 +547,7 @@ def check_redirect(ctx: Ctx, cases: List[dict]) -> None:
                 headers.append((b"host", b"second.example"))
         scope: Dict[str, Any] = {"type": c["kind"], "headers": headers, "root_path": c["root_path"],
                                  "raw_path": c["raw_path"].encode(), "query_string": c["query"].encode(),
-                                 "http_version": c["http_version"], "path": c["raw_path"]}
+                                 "http_version": c["http_version"], "path": c.get("path", c["raw_path"])}
         if c["kind"] != "lifespan":
             scope["scheme"] = c["scheme"]
         if c["kind"] == "websocket" and c["ws_ext"]:
@@ -517,16 +581,19 @@ def check_redirect(ctx: Ctx, cases: List[dict]) -> None:
     results = asyncio.run(runall())
     reqs = [{"cmd": "c20.redirect", "host": c["cfg_host"],
              "scope": {"kind": c["kind"], "scheme": c["scheme"], "http_version": c["http_version"], "ws_ext": c["kind"] == "websocket" and c["ws_ext"],
-                       "host_header": c["hdr_host"], "root_path": c["root_path"], "raw_path": c["raw_path"], "query": c["query"]}} for c in cases]
+                       "host_header": c["hdr_host"], "root_path": c["root_path"], "raw_path": c["raw_path"], "path": c.get("path", c["raw_path"]),
+                       "query": c["query"]}} for c in cases]
     model = ctx.model(reqs)
     for i, (c, (act, scope, snap, seen)) in enumerate(zip(cases, results)):
         ctx.evaluations += 1
         cleartext = (c["kind"], c["scheme"]) in (("http", "http"), ("websocket", "ws"))
         host = c["cfg_host"] if c["cfg_host"] is not None else c["hdr_host"]
+        tcls = _target_class(c)
         ctx.count("redirect.kind", f"{c['kind']}/{c['scheme']}")
+        ctx.count("redirect.target", tcls)
         if cleartext:
             ctx.distinct(["redirect", c["kind"], c["http_version"] == "2", c["cfg_host"] is not None, c["hdr_host"] is not None, c["ws_ext"],
-                          c["root_path"] != "", c["query"] != ""])
+                          c["root_path"] != "", c["query"] != "", tcls])
         ctx.sample(c, cap=2)
         if not cleartext:
             if act["action"] != "pass" or seen.get("scope") != snap:
@@ -544,8 +611,11 @@ def check_redirect(ctx: Ctx, cases: List[dict]) -> None:
                     p = c["root_path"] + c["raw_path"]
                     p = p if (p == "" or p.startswith("/")) else "/" + p
                     ok = (u.scheme == exp_scheme and u.netloc == host and u.path == p and u.query == c["query"] and act["url"].startswith(f"{exp_scheme}://{host}"))
+                    # the same resource: the target's path and query go back octet for octet as they were sent (no escape is
+                    # decoded into a delimiter, a space or a control character), nothing is appended
+                    ok = ok and u.fragment == "" and act["url"] == f"{exp_scheme}://{host}{p}" + (f"?{c['query']}" if c["query"] else "")
                 if not ok:
-                    ctx.violation("redirect_target", c, act, {"family": "redirect", "kind": c["kind"]})
+                    ctx.violation("redirect_target", c, act, {"family": "redirect", "kind": c["kind"], "target": tcls.split(":")[0]})
         if model is not None:
             ctx.disagreements_checked += 1
             if model[i].get("ok") != act:
